@@ -129,6 +129,11 @@ func (s *sim) consumedByModel() int { return s.nextLine }
 // precond says whether a is enabled in the current state.
 func (s *sim) precond(a Action) error {
 	switch a.K {
+	case "drain_events":
+		if !s.cfg.LazyListener || len(s.listen) == 0 {
+			return errors.New("no lazy listener")
+		}
+		return nil
 	case "close_trans":
 		at := s.att(a.A)
 		if at == nil || !at.returned || at.closedTrans || at.closeDue {
@@ -273,6 +278,12 @@ func (s *sim) apply(a Action) {
 			s.probes["io_attempts"]++
 		}
 		s.probes["io_bursts"]++
+	case "drain_events":
+		s.evDrainDue = true
+		if !s.shutdown {
+			s.lazyReadStep = s.step - 1 // what happened before this step is certainly delivered by it
+		}
+		s.probes["lazy_listener_read"]++
 	case "close_trans":
 		s.att(a.A).closeDue = true
 		s.probes["transport_closed_late"]++
@@ -388,9 +399,12 @@ func (s *sim) apply(a Action) {
 		if len(a.B) > 2048 {
 			s.probes["read_burst_over_2k"]++
 		}
-		at.r.release(a.B, a.S, a.N == 1)
-		if a.N == 1 {
-			s.faults["read_zero_len"]++
+		at.r.release(a.B, a.S, a.N)
+		if a.N >= 1 {
+			s.faults["read_zero_len"] += int64(a.N)
+		}
+		if a.N > 1 {
+			s.probes["zero_len_read_runs"]++
 		}
 	case "write_done":
 		at := s.att(a.A)
@@ -502,6 +516,26 @@ func (s *sim) settle() {
 				break
 			}
 		}
+		if s.cfg.LazyListener && len(s.listen) > 0 && (s.draining || s.evDrainDue) {
+			for {
+				select {
+				case ev := <-s.listen[0]:
+					s.mu.Lock()
+					s.events[0] = append(s.events[0], ev.Type)
+					if !s.shutdown {
+						// after the shutdown the event loop chooses between its
+						// queue and its finished context by the runtime's coin:
+						// what still arrives is judged, but kept out of the trace
+						s.obs("ev0 %s", ev.Type)
+					}
+					s.mu.Unlock()
+					again = true
+					continue
+				default:
+				}
+				break
+			}
+		}
 		if !again {
 			break
 		}
@@ -512,12 +546,16 @@ func (s *sim) settle() {
 	}
 	s.mu.Lock()
 	defer s.mu.Unlock()
+	s.evDrainDue = false
 	if s.doRet && s.doRetAt == 0 {
 		s.doRetAt = s.step
 		s.obs("do returned")
 	}
 	s.harvestLogs()
 	for i, ch := range s.listen {
+		if i == 0 && s.cfg.LazyListener {
+			continue // a listener that is behind: its channel is small and read only at drain_events steps (above)
+		}
 		for {
 			select {
 			case ev := <-ch:
